@@ -1,6 +1,9 @@
 // Defect (C10): CgroupContext::getPgScanCumulative throws std::runtime_error when memory.stat has no `pgscan`
 // key.  kill_by_pg_scan calls pg_scan_rate() from prerun on every tick; nothing up to main() catches, so a cgroup
 // whose memory.stat lacks the key terminates the daemon instead of being reported as unavailable.
+#ifndef DEMO_TMP
+#define DEMO_TMP "/tmp/oomd_demo"   /* scratch directory; replay/replay.py passes -DDEMO_TMP=... */
+#endif
 #include <sys/stat.h>
 #include <fstream>
 #include <iostream>
@@ -8,7 +11,7 @@
 #include "oomd/OomdContext.h"
 using namespace Oomd;
 int main() {
-  const std::string root = "/tmp/w/d10c/cgroupfs";
+  const std::string root = DEMO_TMP "/cgroupfs";
   ::mkdir(root.c_str(), 0755); ::mkdir((root + "/a.slice").c_str(), 0755);
   { std::ofstream(root + "/a.slice/memory.stat") << "anon 4096\nfile 8192\n"; }     // no pgscan line
   { std::ofstream(root + "/a.slice/cgroup.controllers") << "memory\n"; }
